@@ -94,7 +94,130 @@ def units(tier):
                     if split and (n < maxlen or ov):
                         # three levels: Base <- Child (declares / overrides) <- Bottom (inherits without re-annotating)
                         out.append((layout, split, "middle" if ov else "bottom"))
+    # aliased fields: the key a field is present under (alias / its own name / both) x every default kind x pass-through
+    # and converting types x the three places an alias can be written x allow_deserialization_not_by_alias
+    for src in ALIAS_SOURCES:
+        for allow in (False, True):
+            for pair in itertools.product(ALIASED_KINDS, repeat=2):
+                out.append((("aliased",) + pair, src, allow))
     return out
+
+
+ALIAS_SOURCES = ("metadata", "annotated", "config")
+ALIASED_KINDS = ("req", "def", "fac", "optnone", "optdef", "optzero", "anydef", "anyfac", "ptdef", "convdef")
+_AK = {  # kind -> (annotation source, default clause, default value maker, a present value, wire form of it, nullable)
+    "req": ("int", None, None, 5, 5, False),
+    "def": ("int", "default=7", lambda: 7, 5, 5, False),
+    "fac": ("List[int]", "default_factory=list", list, [1], [1], False),
+    "optnone": ("Optional[int]", "default=None", lambda: None, 5, 5, True),
+    "optdef": ("Optional[int]", "default=7", lambda: 7, 5, 5, True),
+    "optzero": ("Optional[int]", "default=0", lambda: 0, 5, 5, True),
+    "anydef": ("Any", "default=7", lambda: 7, {"k": 1}, {"k": 1}, True),
+    "anyfac": ("Any", "default_factory=list", list, ["q"], ["q"], True),
+    "ptdef": ("int", "default=7", lambda: 7, 9, 9, True),           # deserialize=pass_through: None goes through as it is
+    "convdef": ("date", "default=date(2000, 1, 1)", lambda: datetime.date(2000, 1, 1), datetime.date(2020, 2, 29), "2020-02-29", False),
+}
+
+
+def run_aliased(unit, only=None):
+    (_, k0, k1), src, allow = unit
+    res = core.UnitResult()
+    kinds = (k0, k1)
+    lines, cfg_aliases = [], {}
+    order = sorted(range(2), key=lambda i: kinds[i] != "req")      # required fields first (dataclass rule)
+    for i in order:
+        ann, dflt, _, _, _, _ = _AK[kinds[i]]
+        meta = []
+        if kinds[i] == "ptdef":
+            meta.append("'deserialize': pass_through")
+        if src == "metadata":
+            meta.append(f"'alias': 'al{i}'")
+        elif src == "annotated":
+            ann = f"Annotated[{ann}, Alias('al{i}')]"
+        else:
+            cfg_aliases[f"f{i}"] = f"al{i}"
+        args = ([dflt] if dflt else []) + ([f"metadata={{{', '.join(meta)}}}"] if meta else [])
+        lines.append(f"    f{i}: {ann}" + (f" = field({', '.join(args)})" if args else ""))
+    for mixin in (True, False):
+        with space.Ctx() as ctx:
+            ctx.run("from datetime import date\nfrom typing import Annotated\nfrom mashumaro.types import Alias\n"
+                    "from mashumaro import pass_through\n")
+            srcs = "@dataclass\nclass A" + ("(DataClassDictMixin)" if mixin else "") + ":\n" + "\n".join(lines) + "\n"
+            srcs += (f"    class Config(BaseConfig):\n        allow_deserialization_not_by_alias = {allow!r}\n"
+                     f"        aliases = {cfg_aliases!r}\n")
+            try:
+                ctx.run(srcs)
+                A = ctx.ns["A"]
+                if mixin:
+                    decode = A.from_dict
+                else:
+                    from mashumaro.codecs.basic import BasicDecoder
+                    decode = BasicDecoder(A).decode
+            except Exception as e:   # noqa: BLE001
+                res.cases += 1
+                res.violation(f"build-failed|aliased|{kinds}|{src}|{allow}", "build-failed", type(e).__name__,
+                              dict(unit=unit, entry="mixin" if mixin else "codec", present=None), f"{srcs} -> {e!r:.200}")
+                continue
+            res.transitions += 1
+            # presence of one field: absent / under the alias / under its own name / both (different values) / null under either
+            def options(i):
+                _, _, _, val, wire, nullable = _AK[kinds[i]]
+                alt_val, alt_wire = {"convdef": (datetime.date(1999, 1, 1), "1999-01-01")}.get(kinds[i], (val, wire))
+                o = [("absent", {}, None), ("alias", {f"al{i}": wire}, ("v", val)), ("name", {f"f{i}": alt_wire}, ("n", alt_val)),
+                     ("both", {f"al{i}": wire, f"f{i}": alt_wire if kinds[i] == "convdef" else _other(wire)}, ("v", val))]
+                if nullable:
+                    o += [("null-alias", {f"al{i}": None}, ("v", None)), ("null-name", {f"f{i}": None}, ("n", None)),
+                          ("alias-and-null-name", {f"al{i}": wire, f"f{i}": None}, ("v", val))]
+                return o
+            for p0 in options(0):
+                for p1 in options(1):
+                    tag = (p0[0], p1[0])
+                    if only is not None and only != ("mixin" if mixin else "codec", tag):
+                        continue
+                    doc = dict(p0[1])
+                    doc.update(p1[1])
+                    want, missing = {}, None
+                    for i, p in ((0, p0), (1, p1)):
+                        how = p[2]
+                        if how is not None and (how[0] == "v" or allow):
+                            want[f"f{i}"] = how[1]
+                        elif _AK[kinds[i]][1] is None:
+                            missing = missing or f"f{i}"
+                        else:
+                            want[f"f{i}"] = _AK[kinds[i]][2]()
+                    if missing is not None:
+                        # the FIRST missing field in declaration order is named
+                        missing = next(f"f{i}" for i in order if f"f{i}" not in want)
+                    res.cases += 1
+                    res.transitions += 1
+                    try:
+                        obj = decode(doc)
+                        got = ("ok", {f.name: getattr(obj, f.name) for f in dataclasses.fields(obj)})
+                    except Exception as e:   # noqa: BLE001
+                        got = ("exc", type(e).__name__, getattr(e, "field_name", None))
+                    exp = ("exc", "MissingField", missing) if missing is not None else ("ok", want)
+                    if got != exp or (got[0] == "ok" and any(type(got[1][k]) is not type(want[k]) for k in want)):
+                        res.outcomes["neq"] += 1
+                        res.violation(f"aliased-presence|{kinds}|{src}|{allow}|{'mixin' if mixin else 'codec'}|{tag}", "present-key-or-default",
+                                      got[1] if got[0] == "exc" else "value",
+                                      dict(unit=unit, entry="mixin" if mixin else "codec", present=tag),
+                                      f"kinds={kinds} alias written in {src}, allow_deserialization_not_by_alias={allow}: input={doc!r} expected={exp!r:.200} got={got!r:.200}")
+                    else:
+                        res.outcomes["ok"] += 1
+                        if "absent" in tag or any(t.startswith("null") for t in tag) or "name" in tag:
+                            res.nontrivial += 1
+    res.states += 1
+    return res
+
+
+def _other(wire):
+    if isinstance(wire, int):
+        return wire + 1
+    if isinstance(wire, list):
+        return wire + ["other"]
+    if isinstance(wire, dict):
+        return dict(wire, other=1)
+    return wire
 
 
 def _post_init(initvar_name):
@@ -193,6 +316,8 @@ def observe(cls, layout, r):
 
 
 def run_unit(unit, only=None):
+    if unit[0] and unit[0][0] == "aliased":
+        return run_aliased(unit, only)
     from mashumaro.codecs.basic import BasicDecoder
     from mashumaro.exceptions import MissingField
     layout, split, override = unit
@@ -277,4 +402,6 @@ def _explore(unit, only, res, clsm, clsp):
 def replay(case):
     u = core.detuple(case["unit"])
     unit = (tuple(u[0]), u[1], u[2])
+    if unit[0][0] == "aliased":
+        return run_aliased(unit, only=(case["entry"], tuple(case["present"])) if case["present"] is not None else None).violations
     return run_unit(unit, only=(case["entry"], tuple(case["present"])) if case["present"] is not None else None).violations
